@@ -152,7 +152,11 @@ impl Exec {
             let entry = &self.model.held[&k];
             if !entry.soft_deleted && self.model.expired(entry) {
                 // the key reads as absent (past its time-to-live, not yet swept): C07 says its fate is decided by admission alone
-                ensure!(observed != St::RejExists, "C07", "C07/put/expired-unswept", "put(k={}) of a key past its time-to-live (not yet swept, reads as absent) was refused with KeyAlreadyExists by the worker", k);
+                if observed == St::RejExists {
+                    self.soft(Failure::new("C07", "C07/put/expired-unswept", format!("put(k={}) of a key past its time-to-live (not yet swept, reads as absent) was refused with KeyAlreadyExists by the worker", k)))?;
+                    self.stats.rejected_exists_at_worker += 1;
+                    return Ok(St::RejExists);
+                }
                 // a conforming implementation replaces the dead incarnation: account for its removal, then admit normally
                 self.model.remove(k);
             } else {
@@ -167,7 +171,27 @@ impl Exec {
         if let Some((_, begin_weight, max_weight, space_left)) = events.begin {
             ensure!(begin_weight == weight, "C06", "C06/trace/weight", "admission saw weight {} for a put of weight {}", begin_weight, weight);
             ensure!(max_weight == limit, "C06", "C06/trace/limit", "admission uses limit {} but the cache was configured with {}", max_weight, limit);
-            ensure!(space_left as i128 == self.model.free(), "C05", "C05/free-space-mismatch", "admission saw {} free but the held keys leave {} free", space_left, self.model.free());
+            if space_left as i128 != self.model.free() && !self.accounting_broken {
+                self.soft(Failure::new("C05", "C05/free-space-mismatch", format!("admission saw {} free but the held keys leave {} free", space_left, self.model.free())))?;
+                self.accounting_broken = true;
+            }
+        }
+        if self.accounting_broken {
+            // the weight accounting of the cache has already been found inconsistent (noted for the end of the case): admission
+            // can no longer be predicted from the model; follow what was observed so that later behaviour can still be judged
+            for step in &events.steps {
+                if let Event::AdmissionStep { victim: Some(victim), evicted: true, .. } = step {
+                    if let Some(key) = self.model.key_of_id(victim.id) { self.model.remove(key); self.stats.evictions += 1; }
+                }
+            }
+            if observed == St::Accepted {
+                let deadline = ttl.map(|ttl| deadline_of(self.model.now, ttl));
+                self.model.insert(k, value, weight, deadline, id);
+                self.stats.accepted_puts += 1;
+            } else if observed == St::RejSpace || observed == St::RejWeight {
+                self.model.stats.keys_rejected += 1;
+            }
+            return Ok(observed);
         }
         let evicting: Vec<&Event> = events.steps.iter().filter(|step| matches!(step, Event::AdmissionStep { evicted: true, .. })).collect();
         if weight > limit {
@@ -494,9 +518,12 @@ pub struct SeqOutcome {
 
 /// Runs one sequential case from scratch. Pure function of (tree, case, policy) up to thread timing that the
 /// harness synchronises away (sweep waits, consumer quiescence).
-pub fn run_seq_case(case: &SeqCase, policy: &Policy) -> SeqOutcome {
+pub fn run_seq_case(case: &SeqCase, policy: &Policy) -> SeqOutcome { run_seq_case_focus(case, policy, "") }
+
+/// `focus`: the property under check; oracle failures of other properties that leave the model valid are deferred.
+pub fn run_seq_case_focus(case: &SeqCase, policy: &Policy, focus: &str) -> SeqOutcome {
     mark_harness_thread();
-    match catch_unwind(AssertUnwindSafe(|| run_seq_case_inner(case, policy))) {
+    match catch_unwind(AssertUnwindSafe(|| run_seq_case_inner(case, policy, focus))) {
         Ok(outcome) => outcome,
         Err(_) => {
             verif::install(None);
@@ -505,8 +532,9 @@ pub fn run_seq_case(case: &SeqCase, policy: &Policy) -> SeqOutcome {
     }
 }
 
-fn run_seq_case_inner(case: &SeqCase, policy: &Policy) -> SeqOutcome {
+fn run_seq_case_inner(case: &SeqCase, policy: &Policy, focus: &str) -> SeqOutcome {
     let mut exec = Exec::new(&case.cfg, policy);
+    exec.focus = focus.to_string();
     let mut failure = None;
     for (index, op) in case.ops.iter().enumerate() {
         exec.op_index = index;
